@@ -197,7 +197,8 @@ def run_shard(spec, ctx):
     gen = D.Gen(r)
     gen.zoneless = 0.3
     for i in range(spec['n']):
-        n = gen.grid(r.choice(['2.0', '3.0', '3.0']), maxcols=4, maxrows=5)
+        # parser-made version objects: also spellings with other than two numeric groups (2 == 2.0 == 2.0.0)
+        n = gen.grid(r.choice(['2.0', '3.0', '3.0', '3', '2', '3.0.0', '2.0.0', '3.00']), maxcols=4, maxrows=5)
         if not c03.expressible(n):
             continue
         seed = r.getrandbits(48)
